@@ -241,6 +241,10 @@ func init() {
 	z["zzBytesEq"] = func(fr *frame, a []value) value {
 		return fr.m.bytesEq(a[0].([]value), a[1].([]value))
 	}
+	z["zzRace"] = func(fr *frame, a []value) value {
+		fr.m.raceReset(a[0].(bool))
+		return nil
+	}
 	z["zzParam"] = func(fr *frame, a []value) value {
 		if v, ok := fr.m.Params[argStr(a[0])]; ok {
 			return v
